@@ -766,6 +766,7 @@ def r_tab_cfb(ctx, rep):
             rep.anchor_missing("R-TAB-CFB", "struct literal cfb::%s in %s" % (struct, fnname))
             continue
         fields = {f["name"]: f["e"] for f in lit["fields"]}
+        fields.update({f["name"].lstrip("_"): f["e"] for f in lit["fields"] if f["name"].startswith("_")})   # `_unused` renames
         for fname, ex in sorted(S[struct].items()):
             key = "%s|R-TAB-CFB|%s" % (fnname, fname)
             if fname not in fields:
